@@ -92,7 +92,7 @@ def search(ck, binpath, n, maxlen, sigs):
         v = json.loads(l)
         if "summary" in v:
             ck.cov["distribution"]["search"] = v["summary"]
-            ck.add_counts(v["summary"]["texts"], [("search", ck.seed, i) for i in range(v["summary"]["texts"] - v["summary"]["ascii_only"])])
+            ck.add_measured(v["summary"]["texts"], v["summary"]["distinct_nontrivial"])
             continue
         if v["signature"] in sigs:
             text = "".join(chr(x) for x in v["text"])
